@@ -245,7 +245,7 @@ Proof.
     - apply IH in Hr. cbn [fst]. destruct Hr. split; congruence.
     - injection Hr as <- _. cbn [fst]. auto. }
   destruct (alookup (fst b) (ft_status t1)) as [[h| |h|h|]|].
-  - destruct (h =? snd b); [|discriminate]. apply (Cont _ _ (t', ev')) in H; cbn; auto.
+  - apply (Cont _ _ (t', ev')) in H; cbn; auto.
   - apply (Cont _ _ (t', ev')) in H; cbn; auto.
   - destruct (h =? snd b); [|discriminate]. injection H as <- _. cbn. auto.
   - destruct (h =? snd b); [|discriminate]. injection H as <- _. cbn. auto.
@@ -315,7 +315,7 @@ Proof.
   - apply ft_handle_finalized_block_mono in H. destruct H as [H _].
     eapply ft_mono_trans; [|exact H]. split; cbn; lia.
   - destruct (h =? snd b); [|discriminate]. injection H as <- _. split; cbn; lia.
-  - destruct (h =? snd b); [|discriminate]. injection H as <- _. split; cbn; lia.
+  - injection H as <- _. split; cbn; lia.
   - injection H as <- _. split; cbn; lia.
   - injection H as <- _. apply ft_set_status_mono.
 Qed.
